@@ -7,6 +7,7 @@
               field mapping check (the error lists the unmapped fields)
      vars     two pipelines defining overlapping variable tables, merged (placeholder values
               come out in table order)
+     custom   a rule with several custom top-level attributes (document order everywhere)
    Every case is run under all hash seeds by the C20 driver.                              *)
 EXTENDS Integers, Sequences, FiniteSets, SequencesExt, Json, IOUtils, TLC
 VARIABLE x
@@ -22,7 +23,11 @@ StrictCases == {[kind |-> "strict", flags |-> <<>>, supported |-> <<>>, names |-
                     m \in SUBSET {1, 2}}
 VarCases == {[kind |-> "vars", flags |-> <<>>, supported |-> <<>>, names |-> p, mapped |-> <<>>]
                : p \in {q \in [1..3 -> Names] : \A i, j \in 1..3 : i # j => q[i] # q[j]}}
-ASSUME LET S == SetToSeq(ReCases \cup StrictCases \cup VarCases)
+\* custom (non-standard) top-level attributes of a rule in a given order: they are rendered by templates, listed by
+\* to_dict() and looked at by the custom attribute validator - always in the order of the document
+CustomCases == {[kind |-> "custom", flags |-> <<>>, supported |-> <<>>, names |-> p, mapped |-> <<>>]
+                  : p \in {q \in [1..3 -> Names] : \A i, j \in 1..3 : i # j => q[i] # q[j]}}
+ASSUME LET S == SetToSeq(ReCases \cup StrictCases \cup VarCases \cup CustomCases)
        IN  ndJsonSerialize(IOEnv.VERIF_OUT, [i \in 1..Len(S) |-> [id |-> i] @@ S[i]])
 Init == x = 0
 Next == UNCHANGED x
